@@ -1304,7 +1304,7 @@ func GenAtoms(r *lib.Rng, names, nicks []string) []Atom {
 		case 4, 5:
 			a.Col, a.Op, a.IsStr, a.S = "name", "eq", true, lib.Pick(r, names)
 		case 6:
-			a.Col, a.Op, a.IsStr, a.S = "name", "like", true, lib.Pick(r, []string{"a%", "%b", "%c%"})
+			a.Col, a.Op, a.IsStr, a.S = "name", "like", true, lib.Pick(r, []string{"a%", "%b", "%c%", "a_", "_", "AB", "C D", "x"}) // with and without %: _ wildcard, letter case
 		case 7:
 			a.Col, a.Op = "nick", "isnull"
 			clashEmpty := false
